@@ -40,6 +40,16 @@ fn model_bound(ok: bool) {
     assert!(ok, "smallvec model capacity exceeded");
 }
 
+/// Model-only: upper bound on the length any vector may reach through `push` while it is set.
+/// A differential harness sets it to the reference's element count before calling the code under
+/// test, so that an implementation that produces MORE elements fails an assertion at the first
+/// excess push - before a runaway loop merely exhausts the unwinding bound (Kani generates no
+/// replayable counterexample for unwinding assertions).
+pub static mut MODEL_PUSH_LIMIT: usize = usize::MAX;
+pub fn model_set_push_limit(n: usize) {
+    unsafe { MODEL_PUSH_LIMIT = n }
+}
+
 pub struct SmallVec<T, const N: usize> {
     buf: [MaybeUninit<T>; MODEL_CAP],
     len: usize,
@@ -70,11 +80,8 @@ impl<T, const N: usize> SmallVec<T, N> {
         let mut s = Self::new();
         let n = src.len();
         model_bound(n <= MODEL_CAP);
-        let mut i = 0;
-        while i < n {
-            s.buf[i] = MaybeUninit::new(src[i]);
-            i += 1;
-        }
+        // memcpy, not a loop: no unwinding bound proportional to the payload length is needed
+        unsafe { core::ptr::copy_nonoverlapping(src.as_ptr(), s.buf.as_mut_ptr() as *mut T, n) };
         s.len = n;
         s
     }
@@ -92,6 +99,7 @@ impl<T, const N: usize> SmallVec<T, N> {
     #[inline]
     pub fn push(&mut self, t: T) {
         let n = self.len;
+        assert!(n < unsafe { MODEL_PUSH_LIMIT }, "more elements produced than the harness's reference allows");
         model_bound(n < MODEL_CAP);
         self.buf[n] = MaybeUninit::new(t);
         self.len = n + 1;
